@@ -217,9 +217,16 @@ def eval_np(t, env):
         raise Unknown("subscript")
     if k == "bin":
         a, b = eval_np(t[2], env), eval_np(t[3], env)
-        return {"+": lambda: a + b, "-": lambda: a - b, "*": lambda: a * b, "/": lambda: a / b, "@": lambda: a @ b}[t[1]]()
+        return {"+": lambda: a + b, "-": lambda: a - b, "*": lambda: a * b, "/": lambda: a / b, "@": lambda: a @ b, "&": lambda: a & b, "|": lambda: a | b,
+                "//": lambda: a // b, "%": lambda: a % b}[t[1]]()
     if k == "un" and t[1] == "-":
         return -eval_np(t[2], env)
+    if k == "cmp" and t[1] in ("<", "<=", ">", ">=", "==", "!="):
+        a, b = eval_np(t[2], env), eval_np(t[3], env)
+        return {"<": lambda: a < b, "<=": lambda: a <= b, ">": lambda: a > b, ">=": lambda: a >= b, "==": lambda: a == b, "!=": lambda: a != b}[t[1]]()
+    if k == "bin" and t[1] in ("&", "|"):
+        a, b = eval_np(t[2], env), eval_np(t[3], env)
+        return (a & b) if t[1] == "&" else (a | b)
     raise Unknown(show(t)[:40])
 
 
@@ -308,8 +315,11 @@ def numeric_witness(ret, R, H, M, trials=40):
         A = Rm @ np.linalg.inv(Hm)
         want = Rm - (np.rint(A) * Mm[None, :]) @ Hm
         if np.shape(got) != want.shape or not np.allclose(got, want, atol=1e-9):
-            return (f"H={np.round(Hm, 3).tolist()}, mask={Mm.tolist()}, R[0]={np.round(Rm[0], 3).tolist()}: term evaluates to "
-                    f"{np.round(np.asarray(got)[0], 4).tolist() if np.ndim(got) == 2 else got}, reference {np.round(want[0], 4).tolist()}")
+            k = 0
+            if np.shape(got) == want.shape:
+                k = int(np.argmax(np.abs(np.asarray(got) - want).max(axis=1)))
+            return (f"H={np.round(Hm, 3).tolist()}, mask={Mm.tolist()}, R={np.round(Rm[k], 3).tolist()}: term evaluates to "
+                    f"{np.round(np.asarray(got)[k], 4).tolist() if np.ndim(got) == 2 else got}, reference {np.round(want[k], 4).tolist()}")
     return None
 
 
